@@ -130,6 +130,9 @@ def mask_signature(x, y):
     return sig
 
 
+FDSTAT = {"verdict": 0, "kink": 0, "not-converged": 0}
+
+
 def cls(v):
     return "nan" if math.isnan(v) else ("inf" if math.isinf(v) else "fin")
 
@@ -170,11 +173,16 @@ def pchip_oracle(ctx, case, out, grad):
             ym = [a - eps * b for a, b in zip(y, direction)]
             if mask_signature(x, yp) != s0 or mask_signature(x, ym) != s0:
                 fds = None  # a kink of the interpolant: the derivative along this direction does not exist
+                FDSTAT["kink"] += 1
                 break
             fp, fm = pchip_forward(x, yp, q), pchip_forward(x, ym, q)
             fds.append(sum(float(a - b) * c for a, b, c in zip(fp, fm, w)) / (2 * eps))
-        if fds is None or abs(fds[0] - fds[1]) > 0.5 * tolfd:
+        if fds is None:
+            continue
+        if abs(fds[0] - fds[1]) > 0.5 * tolfd:
+            FDSTAT["not-converged"] += 1
             continue  # the difference quotient is not converged (curvature or rounding): no verdict from it
+        FDSTAT["verdict"] += 1
         fd = fds[1]
         ad = sum(g * b for g, b in zip(grad, direction))
         if abs(fd - ad) > tolfd:
@@ -528,8 +536,26 @@ def gen_sv_sparse_U(rng, n, pattern):
 SPARSE_U = ("chain", "star", "clusters", "all-zero", "single-zero")
 
 
+def _expm(A):
+    """Matrix exponential by scaling and squaring with a degree-18 Taylor polynomial of A / 2^k, |A / 2^k|_1 <= 1/4
+    (truncation 0.25^19 / 19! ~ 3e-29; plain differentiable torch operations).  torch.linalg.matrix_exp is only accurate to
+    ~1e-10 on these matrices (measured against scipy.linalg.expm, which agrees with emu-sv to 1e-14)."""
+    import torch
+
+    nrm = float(A.detach().abs().sum(dim=0).max())
+    k = max(0, math.ceil(math.log2(nrm / 0.25))) if nrm > 0.25 else 0
+    B = A / (2.0 ** k)
+    eye = torch.eye(A.shape[0], dtype=A.dtype)
+    T = eye
+    for m in range(18, 0, -1):
+        T = eye + (B @ T) / m
+    for _ in range(k):
+        T = T @ T
+    return T
+
+
 def dense_ref_loss(spec, tens):
-    """Independent reference: the same piecewise-constant evolution with torch.linalg.matrix_exp of the dense
+    """Independent reference: the same piecewise-constant evolution with the matrix exponential (_expm) of the dense
     Hamiltonian (float64, ordinary autograd; documented convention, shares no code with /repo) and the same loss."""
     import torch
 
@@ -565,7 +591,7 @@ def dense_ref_loss(spec, tens):
     times, states, H = spec["times"], [], None
     for s in range(spec["steps"]):
         H = ham(s)
-        psi = torch.linalg.matrix_exp(-1j * (times[s + 1] - times[s]) * 1e-3 * H) @ psi
+        psi = _expm(-1j * (times[s + 1] - times[s]) * 1e-3 * H) @ psi
         states.append(psi)
     wv = torch.tensor(spec["weights"], dtype=torch.float64)
 
@@ -1133,6 +1159,7 @@ def run(ctx):
                         "y0": c["y"][:4], "flat_segment": flat, "grad_classes": sorted({cls(v) for v in g})},
                        nontrivial=len(c["x"]) >= 3)
     ctx.extra["pchip_input_distribution"] = dict(sorted(hist.items()))
+    ctx.extra["pchip_finite_difference_directions"] = dict(FDSTAT)
     ctx.extra["pchip_gradient_entry_classes(real code)"] = cl_hist
     ad_ok, ad_detail = model_ok, "" if model_ok else "model does not build"
     if model_ok:
